@@ -15,8 +15,10 @@ import (
 // FaultPlan describes which environment answers are offered at every
 // directory operation once the writer is open.
 type FaultPlan struct {
-	Sticky bool // offer "fails until cleared" in addition to the transient faults
-	Settle bool // the background work comes to rest (under faults) after every batch, so that file merges run while faults are offered
+	Sticky      bool // offer "fails until cleared" in addition to the transient faults
+	NoHold      bool // readers are closed right after their observation (so that superseded files really are removed)
+	CloseFaults bool // the Close of a loaded item may report an error too (the handle is released all the same)
+	Settle      bool // the background work comes to rest (under faults) after every batch, so that file merges run while faults are offered
 }
 
 // RunFaulty runs a single sequential client (safe mode) while every
@@ -48,10 +50,17 @@ func RunFaulty(name string, sc Scenario, mode Mode, plan FaultPlan, opts verifmc
 	injected := 0
 	injectedLoud := 0 // faults that must be reported asynchronously
 	enabled := false
-	sticky := "" // op kind that currently fails on every call
+	onlyClose := false // from the quiescence on only handle closes may still fail (CloseFaults)
+	sticky := ""       // op kind that currently fails on every call
 	var injLog []string
 	dir.Faults = func(op, kind string, id uint64) int {
 		if !enabled {
+			return 0
+		}
+		if op == "closeh" && !plan.CloseFaults {
+			return 0
+		}
+		if onlyClose && op != "closeh" {
 			return 0
 		}
 		if sticky == op {
@@ -152,13 +161,26 @@ func RunFaulty(name string, sc Scenario, mode Mode, plan FaultPlan, opts verifmc
 			if oerr != nil {
 				verifmc.Fail("held reader: " + oerr.Error())
 			}
-			held = append(held, &heldR{r: r, first: first, after: i}) // every reader stays open
+			if plan.NoHold {
+				_ = r.Close()
+			} else {
+				held = append(held, &heldR{r: r, first: first, after: i}) // every reader stays open
+			}
 		}
 		// the background work comes to rest, the writer is closed: the readers still answer
 		verifmc.Idle("quiesce")
-		enabled = false
+		enabled = plan.CloseFaults // handle closes at Close may still report errors
+		onlyClose = true
 		sticky = ""
 		recheck("after the background work came to rest")
+		if plan.CloseFaults {
+			// the readers go first, so that the writer's Close releases the handles of its root itself
+			for k := len(held) - 1; k >= 0; k-- {
+				_ = held[k].r.Close()
+				held = held[:k]
+				recheck("after a younger reader was closed")
+			}
+		}
 		if st := w.VerifIndexWriter().Stats(); st.TotFileMergeLoopErr > 0 {
 			res.Counts["executions_with_a_failed_file_merge"]++
 		}
